@@ -148,6 +148,32 @@ def run(ctx, rep):
                                     "seed-insensitive", True, None, None, "C04")
             if len(rep.samples) < 2:
                 rep.sample(dict(cfg=tr["cfg"], generations=len(tr["batches"]), first_batch_head=tr["batches"][0]["value"][:4]))
+    # ---------------- problem sizes of real use (strings of hundreds of bits, populations of hundreds): the same seed still
+    # gives the same run.  Compared by digest: initial population, every recorded generation's best, final population
+    import hashlib
+
+    def big_run(name, kw, seed):
+        opt = getattr(O, name)(lambda x: np.asarray(x, dtype=np.float64).sum(axis=1), iters=2, random_state=seed, keep_history=True, **kw)
+        opt.fit()
+        st = opt.get_stats()
+        h = hashlib.sha256()
+        for P in st["population_g"]:
+            h.update(np.ascontiguousarray(np.asarray(P, dtype=np.float64)).tobytes())
+        h.update(np.asarray(st["max_fitness"], dtype=np.float64).tobytes())
+        h.update(np.ascontiguousarray(np.asarray(opt._population_g_i, dtype=np.float64)).tobytes())
+        return h.hexdigest(), float(opt.get_fittest()["fitness"])
+    big = [(nm, dict(pop_size=p, str_len=n)) for nm in ("GeneticAlgorithm", "SelfCGA", "PDPGA", "SHAGA") for p, n in ((128, 512), (40, 1700))]
+    big += [(nm, dict(pop_size=260, num_variables=256, left_border=-1.0, right_border=1.0)) for nm in ("DifferentialEvolution", "jDE", "SHADE")]
+    for nm, kw in big[:ctx.pick(11, 11)]:
+        seed = ctx.rng.randrange(1 << 20)
+        a = big_run(nm, kw, seed)
+        perturb(ctx.rng)
+        b = big_run(nm, kw, seed)
+        rep.traces += 2
+        rep.count("large:" + nm, (nm, seed, tuple(sorted(kw.items()))))
+        if a != b:
+            rep.problem("determinism", f"{nm} at a realistic problem size: same random_state, different run (initial population / history / result digest)",
+                        dict(optimizer=nm, seed=seed, kw=kw), "nondeterministic-run", True, a[1], b[1], "C04")
     # ---------------- estimators
     E.install()
     specs = [("GeneticProgrammingClassifier", dict(), ["a", "b"]), ("GeneticProgrammingRegressor", dict(), None),
